@@ -1,6 +1,7 @@
 package gen
 
 import (
+	"bytes"
 	"fmt"
 	"net"
 	"reflect"
@@ -18,7 +19,41 @@ import (
 // ---------------------------------------------------------------------------
 // reference tree → library value (exported constructors and struct literals only)
 
-func ip16(b []byte) net.IP { return net.IP(append([]byte{}, b...)) }
+func ip16(b []byte) net.IP { return net.IP(cpb16(b)) }
+
+// Representation mode of the values ToLibMsgRepr builds (bit mask). Every mode builds a value that means the same and
+// that the unchanged library encodes to the same bytes; they differ in how the caller spelled it:
+//
+//	1  the address of an all-zero IA prefix is left nil (&net.IPNet{Mask: …}: a pure length hint)
+//	2  zero-length byte fields are nil instead of empty
+//	4  every second option that has a dedicated type is held as *OptionGeneric with that option's bytes (relay
+//	   message options excepted: the accessors for the inner message need the typed form)
+//	8  byte fields and addresses are slices with spare capacity and foreign octets behind their length
+var reprMode, reprCount int
+
+// ToLibMsgRepr builds the library value of a reference tree in the given representation mode.
+func ToLibMsgRepr(m *refv6.Msg, repr int) dhcpv6.DHCPv6 {
+	old := reprMode
+	reprMode, reprCount = repr, 0
+	defer func() { reprMode = old }()
+	return ToLibMsg(m)
+}
+
+func cpb16(b []byte) []byte {
+	if reprMode&8 != 0 {
+		return spare(b)
+	}
+	return append([]byte{}, b...)
+}
+
+func spare(b []byte) []byte {
+	x := make([]byte, len(b)+16)
+	copy(x, b)
+	for i := len(b); i < len(x); i++ {
+		x[i] = 0xEE
+	}
+	return x[:len(b)]
+}
 
 func secs(n uint64) time.Duration { return time.Duration(n) * time.Second }
 
@@ -62,7 +97,15 @@ func toLibDUID(o *refv6.Opt) dhcpv6.DUID {
 	return &dhcpv6.DUIDOpaque{Type: dhcpv6.DUIDType(o.N[0]), Data: cpb(o.B[0])}
 }
 
-func cpb(b []byte) []byte { return append([]byte{}, b...) }
+func cpb(b []byte) []byte {
+	if len(b) == 0 && reprMode&2 != 0 {
+		return nil
+	}
+	if reprMode&8 != 0 {
+		return spare(b)
+	}
+	return append([]byte{}, b...)
+}
 
 func strs(bs [][]byte) []string {
 	var s []string
@@ -90,6 +133,17 @@ func ips(bs [][]byte) []net.IP {
 
 // ToLibOpt builds one library option.
 func ToLibOpt(o *refv6.Opt) dhcpv6.Option {
+	x := toLibOptTyped(o)
+	if reprMode&4 != 0 && o.Typ != "opaque" && o.Typ != "relaymsg" && o.Code != 9 {
+		reprCount++
+		if _, generic := x.(*dhcpv6.OptionGeneric); !generic && reprCount%2 == 0 {
+			return &dhcpv6.OptionGeneric{OptionCode: x.Code(), OptionData: x.ToBytes()}
+		}
+	}
+	return x
+}
+
+func toLibOptTyped(o *refv6.Opt) dhcpv6.Option {
 	switch o.Typ {
 	case "duid":
 		if o.Code == 1 {
@@ -119,6 +173,9 @@ func ToLibOpt(o *refv6.Opt) dhcpv6.Option {
 		x := &dhcpv6.OptIAPrefix{PreferredLifetime: secs(o.N[0]), ValidLifetime: secs(o.N[1])}
 		if o.N[2] != 0 {
 			x.Prefix = &net.IPNet{IP: ip16(o.B[0]), Mask: net.CIDRMask(int(o.N[2]), 128)}
+			if reprMode&1 != 0 && bytes.Equal(o.B[0], make([]byte, 16)) {
+				x.Prefix.IP = nil
+			}
 		}
 		x.Options.Options = toLibOpts(o.Sub)
 		return x
